@@ -78,6 +78,10 @@ pub enum Op {
     /// through the second, where `n2` fits the second window but not the
     /// space that is left. Must be refused.
     WW { n1: usize, n2: usize },
+    /// Two read windows at once: consume `m1` through the first, then `m2`
+    /// through the second, where `m2` fits the second window but exceeds
+    /// what is left. Must be refused.
+    RR { m1: usize, m2: usize },
 }
 
 impl Op {
@@ -91,6 +95,7 @@ impl Op {
             Op::AR => json!({"op":"AR"}),
             Op::CR { m } => json!({"op":"CR","consume":m}),
             Op::WW { n1, n2 } => json!({"op":"WW","first":n1,"second":n2}),
+            Op::RR { m1, m2 } => json!({"op":"RR","first":m1,"second":m2}),
         }
     }
     pub fn from_json(v: &Value) -> Op {
@@ -119,6 +124,10 @@ impl Op {
             },
             "AW" => Op::AW,
             "AR" => Op::AR,
+            "RR" => Op::RR {
+                m1: v["first"].as_u64().unwrap() as usize,
+                m2: v["second"].as_u64().unwrap() as usize,
+            },
             "WW" => Op::WW {
                 n1: v["first"].as_u64().unwrap() as usize,
                 n2: v["second"].as_u64().unwrap() as usize,
@@ -340,6 +349,38 @@ impl<T: Elem> Sys<T> {
                 if f != cap - self.m.q.len() {
                     return fail("free", format!("free() = {f}, model {}", cap - self.m.q.len()));
                 }
+            }
+            Op::RR { m1, m2 } => {
+                let have = self.m.q.len();
+                let (r1, _) = match self.r.read_buf() {
+                    Ok(x) => x,
+                    Err(e) => return fail("window", format!("read_buf failed: {e}")),
+                };
+                let r2 = match catch(|| self.r.read_buf()) {
+                    Ok(Ok((x, _))) => x,
+                    _ => {
+                        drop(r1);
+                        self.refused = true;
+                        return Ok(());
+                    }
+                };
+                assert!(m1 >= 1 && m1 <= have && m2 <= r2.len() && m1 + m2 > have);
+                if let Err(e) = catch(move || r1.consume(m1)) {
+                    return fail("consume-panic", format!("consume of {m1} (have {have}) panicked: {e}"));
+                }
+                for _ in 0..m1 {
+                    self.m.q.pop_front();
+                }
+                let left = have - m1;
+                let r = catch(move || r2.consume(m2));
+                if r.is_ok() {
+                    return fail(
+                        "over-consume-accepted",
+                        format!("consume of {m2} through a second read window accepted with {left} buffered"),
+                    );
+                }
+                self.refused = true;
+                return Ok(());
             }
             Op::WW { n1, n2 } => {
                 let room = cap - self.m.q.len();
@@ -642,6 +683,17 @@ fn successors(key: &Key, cap: usize, pats: &[TagPat]) -> Vec<Op> {
     if key.held_r.is_none() {
         ops.push(Op::AR);
     }
+    if key.held_w.is_none() && key.held_r.is_none() && key.used >= 1 {
+        let mut seen = vec![];
+        for m1 in [1, key.used] {
+            for m2 in [key.used - m1 + 1, key.used] {
+                if !seen.contains(&(m1, m2)) {
+                    seen.push((m1, m2));
+                    ops.push(Op::RR { m1, m2 });
+                }
+            }
+        }
+    }
     ops.push(Op::F);
     ops
 }
@@ -693,6 +745,7 @@ fn shape(hist: &[Op], step: usize, _cap: usize) -> String {
         Some(Op::CW { n, .. }) => format!("held-commit{}", if *n == 0 { "0" } else { "N" }),
         Some(Op::CR { m }) => format!("held-consume{}", if *m == 0 { "0" } else { "N" }),
         Some(Op::WW { .. }) => "two-write-windows".into(),
+        Some(Op::RR { .. }) => "two-read-windows".into(),
         None => "init".into(),
     }
 }
